@@ -491,27 +491,43 @@ def alloc_agreement(chk, mod):
     """all buffers of one grid have the same size and dtype (sibling agreement)"""
     init = mod.func("Grid.__init__")
     env = inline_locals(init)
+    # names under which the constructor knows the layout manager
+    mgr = {"self._layout_manager"}
+    for a in ast.walk(init):
+        if isinstance(a, ast.Assign) and src(a.targets[0]) == "self._layout_manager" and isinstance(a.value, ast.Name):
+            mgr.add(a.value.id)
     n = 0
     for a in ast.walk(init):
-        if isinstance(a, ast.Assign) and src(a.targets[0]) == "self._my_data" and isinstance(a.value, ast.List):
-            sigs = []
-            for el in a.value.elts:
-                e = expand(el, env)
-                if isinstance(e, ast.Call) and src(e.func) in ("np.empty", "np.zeros", "numpy.empty"):
-                    size = src(e.args[0]) if e.args else "?"
-                    dt = [src(k.value) for k in e.keywords if k.arg == "dtype"]
-                    dt = dt[0] if dt else (src(e.args[1]) if len(e.args) > 1 else "<default float>")
-                    sigs.append((src(e.func), size, dt))
-                else:
-                    sigs.append(("?", src(e), "?"))
+        if not (isinstance(a, ast.Assign) and src(a.targets[0]) == "self._my_data"):
+            continue
+        elts = None
+        if isinstance(a.value, ast.List):
+            elts = a.value.elts
+        elif isinstance(a.value, ast.ListComp) and len(a.value.generators) == 1:
+            elts = [a.value.elt]            # every buffer is the same expression by construction
+        if elts is None:
+            chk.ob("T8-buffer-allocation-agreement", a, "self._my_data = ...", None, f"allocation `{src(a.value)[:60]}` not recognised",
+                   file=U.GRID, func="Grid.__init__")
             n += 1
-            ok = len(set(sigs)) == 1 and sigs[0][1] == "self._layout_manager.bufferSize" and sigs[0][2] not in ("<default float>", "?")
-            chk.ob("T8-buffer-allocation-agreement", a, f"self._my_data = [...{len(sigs)} buffers]", ok,
-                   "all rotating buffers are allocated with the manager's bufferSize and the grid's dtype" if ok else
-                   f"buffers differ in size or dtype: {sigs} - after an index rotation the field would live in an array "
-                   "of another type/size", file=U.GRID, func="Grid.__init__")
-    if n < 2:
-        raise AnalysisError("C04: expected two `_my_data` allocation sites in Grid.__init__")
+            continue
+        sigs = []
+        for el in elts:
+            e = expand(el, env)
+            if isinstance(e, ast.Call) and src(e.func) in ("np.empty", "np.zeros", "numpy.empty"):
+                size = src(e.args[0]) if e.args else "?"
+                dt = [src(k.value) for k in e.keywords if k.arg == "dtype"]
+                dt = dt[0] if dt else (src(e.args[1]) if len(e.args) > 1 else "<default float>")
+                sigs.append((src(e.func), size, dt))
+            else:
+                sigs.append(("?", src(e), "?"))
+        n += 1
+        ok = len(set(sigs)) == 1 and sigs[0][1] in {m + ".bufferSize" for m in mgr} and sigs[0][2] not in ("<default float>", "?")
+        chk.ob("T8-buffer-allocation-agreement", a, f"self._my_data = [...{len(sigs)} buffer expression(s)]", ok,
+               "all rotating buffers are allocated with the manager's bufferSize and the grid's dtype" if ok else
+               f"buffers differ in size or dtype: {sigs} - after an index rotation the field would live in an array "
+               "of another type/size", file=U.GRID, func="Grid.__init__")
+    if n < 1:
+        raise AnalysisError("C04: no `_my_data` allocation site found in Grid.__init__")
 
 
 # --------------------------------------------------------------------------
